@@ -37,10 +37,46 @@ from .common import Ctx, Failure, LeanStatus, Mismatch, Result
 PATH_KEYS = ("schema_path", "queries_path", "target_package_path", "base_client_file_path")
 ENVIRON = {"C17_TOKEN": "secret-token", "C17_EMPTY": ""}
 
+
+def tv_enc(x: Any) -> Any:
+    """TOML value -> wire form of `Ariadne.TV` (twin of `decTV` in Driver/C17.lean): the six kinds stay apart
+    (True is not 1, 1 is not 1.0); a float travels as Python's repr."""
+    if isinstance(x, bool):
+        return {"b": x}
+    if isinstance(x, int):
+        return {"i": x}
+    if isinstance(x, float):
+        return {"f": repr(x)}
+    if isinstance(x, str):
+        return {"s": x}
+    if isinstance(x, (list, tuple)):
+        return {"l": [tv_enc(v) for v in x]}
+    if isinstance(x, dict):
+        return {"t": [[str(k), tv_enc(v)] for k, v in x.items()]}
+    return {"s": "<outside the TOML domain: %s>" % type(x).__name__}
+
+
+def tv_opt(x: Any) -> Any:
+    return None if x is None else tv_enc(x)
+
+
+def tv_dec(x: Any) -> Any:
+    if "b" in x:
+        return x["b"]
+    if "i" in x:
+        return x["i"]
+    if "f" in x:
+        return float(x["f"])
+    if "s" in x:
+        return x["s"]
+    if "l" in x:
+        return [tv_dec(v) for v in x["l"]]
+    return {k: tv_dec(v) for k, v in x["t"]}
+
 # (C17-F2 `fragmentsModuleNameUnchecked` was repaired by /repo 0686a80: no trigger any more, its old region is judged
 #  like every other bad module name; its witnesses stay in corpus/C17 and are replayed on every run)
 TRIGGERS = ["invalidSchemaAssumedValid", "schemaBuildTypeError",
-            "fragmentGenErrorAfterWrites", "noGraphqlFiles", "baseClassSubstring"]
+            "fragmentGenErrorAfterWrites", "noGraphqlFiles", "baseClassSubstring", "illTypedOptionInternal", "joinedNotParsable"]
 
 
 # --------------------------------------------------------------------------------------------
@@ -103,8 +139,10 @@ def env_table(cfg: Dict[str, Any], extra_paths: Tuple[str, ...] = ()) -> Dict[st
                 if k == "base_client_file_path":
                     text_for.append(v)
     for v in sec.get("files_to_include", []):
-        if isinstance(v, list):
+        if isinstance(v, (list, str, dict)):      # what Python iterates: items, CHARACTERS, keys
             paths += [x for x in v if isinstance(x, str)]
+    for k in ("target_file_path",):
+        paths += [v for v in sec.get(k, []) if isinstance(v, str)]
     defaults = default_paths()
     for _, p in defaults:
         paths.append(p)
@@ -154,12 +192,12 @@ def settings_obs(kind: str, cfg: Dict[str, Any]) -> Dict[str, Any]:
             for f in dataclasses.fields(s):
                 v = getattr(s, f.name)
                 if f.name == "include_comments":
-                    v = getattr(v, "value", v)
-                elif f.name == "remote_schema_headers":
-                    v = [[k, x] for k, x in v.items()]
+                    v = tv_enc(getattr(v, "value", v))
                 elif f.name == "scalars":
-                    v = [{"graphql_name": x.graphql_name, "type_": x.type_, "serialize": x.serialize, "parse": x.parse,
-                          "import_": x.import_} for x in v.values()]
+                    v = [{"graphql_name": x.graphql_name, "type_": tv_enc(x.type_), "serialize": tv_opt(x.serialize),
+                          "parse": tv_opt(x.parse), "import_": tv_opt(x.import_)} for x in v.values()]
+                else:
+                    v = tv_enc(v)       # a dataclass does not check types: any option may hold any kind of value
                 d[f.name] = v
             obs["result"] = {"ok": d}
         except BaseException as e:  # noqa: BLE001
@@ -178,7 +216,17 @@ def _deep_same(a: Any, b: Any) -> bool:
         return list(a.keys()) == list(b.keys()) and all(_deep_same(a[k], b[k]) for k in a)
     if isinstance(a, list):
         return len(a) == len(b) and all(_deep_same(x, y) for x, y in zip(a, b))
-    return a == b
+    if isinstance(a, float) and a != a:
+        return b != b       # nan
+    return a == b and (not isinstance(a, float) or repr(a) == repr(b))    # 0.0 vs -0.0
+
+
+def _key_sorted(x: Any) -> Any:
+    if isinstance(x, dict):
+        return {k: _key_sorted(x[k]) for k in sorted(x)}
+    if isinstance(x, list):
+        return [_key_sorted(v) for v in x]
+    return x
 
 
 MISSING_PREFIX = "Missing configuration fields: "
@@ -196,8 +244,9 @@ def norm_settings_result(res: Dict[str, Any], model: bool) -> Dict[str, Any]:
         out["missing"] = sorted(e["missing"])
     elif not model and e["msg"].startswith(MISSING_PREFIX):
         out["missing"] = sorted(x for x in e["msg"][len(MISSING_PREFIX):].split(", ") if x)   # joined from a set
-    else:
+    elif e["typed"]:
         out["msg"] = e["msg"]
+    # (the text of a bare AttributeError / KeyError / TypeError is CPython's, not ariadne-codegen's: class only)
     return {"err": out}
 
 
@@ -207,7 +256,7 @@ def _settings_batch(root: str, cases: List[Dict[str, Any]]) -> List[Tuple[Dict[s
     out = []
     for c in cases:
         env = env_table(c["cfg"])
-        line = {"op": "clientSettings" if c["kind"] == "client" else "schemaSettings", "env": env, "cfg": wire.enc(c["cfg"])}
+        line = {"op": "clientSettings" if c["kind"] == "client" else "schemaSettings", "env": env, "cfg": tv_enc(c["cfg"])}
         out.append((line, settings_obs(c["kind"], c["cfg"])))
     return out
 
@@ -258,6 +307,12 @@ def schema_bases(W: Dict[str, str]) -> List[Tuple[str, Dict[str, Any]]]:
         ("defaults", {"schema_path": W["schema_dir"]}),
     ]
 
+
+ALL_OPTS = ["schema_path", "remote_schema_url", "remote_schema_headers", "remote_schema_verify_ssl", "enable_custom_operations", "plugins",
+            "queries_path", "target_package_name", "target_package_path", "client_name", "client_file_name", "base_client_name",
+            "base_client_file_path", "enums_module_name", "input_types_module_name", "fragments_module_name", "include_comments",
+            "convert_to_snake_case", "include_all_inputs", "include_all_enums", "async_client", "opentelemetry_client", "files_to_include", "scalars",
+            "target_file_path", "schema_variable_name", "type_map_variable_name"]
 
 Viol = Tuple[str, Callable[[Dict[str, Any], Dict[str, str]], Optional[str]], str, Optional[str]]
 # (label, mutate(section, W) -> mention (None = not applicable to this base), expected class, finding trigger if accepted)
@@ -456,9 +511,211 @@ def harmless_variations(kind: str) -> List[Tuple[str, Callable[[Dict[str, Any]],
     return out
 
 
+# --- every TOML kind at every option -----------------------------------------------------------------------------
+
+KIND_VALUES: List[Tuple[str, Any]] = [
+    ("bool:true", True), ("bool:false", False),
+    ("int:0", 0), ("int:1", 1), ("int:2", 2), ("int:-1", -1),
+    ("float:0.0", 0.0), ("float:1.0", 1.0), ("float:2.5", 2.5), ("float:-0.0", -0.0), ("float:inf", float("inf")), ("float:nan", float("nan")),
+    ("str:empty", ""), ("str:a", "a"), ("str:mode", "stable"), ("str:dot", "."),
+    ("list:empty", []), ("list:str", ["a"]), ("list:int", [1]), ("list:dot", ["."]), ("list:list", [["a"]]),
+    ("table:empty", {}), ("table:str", {"a": "a"}), ("table:int", {"a": 1}), ("table:scalar", {"A": {"type": "str"}}), ("table:dot", {".": "x"}),
+]
+SCALARS_VALUES: List[Tuple[str, Any]] = [
+    ("entry:str", {"A": "str"}), ("entry:int", {"A": 1}), ("entry:list", {"A": []}), ("entry:bool", {"OK": {"type": "str"}, "A": True}),
+    ("type:int", {"A": {"type": 1}}), ("type:bool", {"A": {"type": True}}), ("type:float", {"A": {"type": 1.5}}),
+    ("type:list", {"A": {"type": ["x"]}}), ("type:list-dot", {"A": {"type": ["."]}}), ("type:table", {"A": {"type": {"a": 1}}}),
+    ("type:table-dot", {"A": {"type": {".": 1}}}), ("parse:int", {"A": {"type": "x", "parse": 1}}), ("parse:zero", {"A": {"type": "x", "parse": 0}}),
+    ("serialize:list-dot", {"A": {"type": "x", "serialize": ["."]}}), ("parse:empty-list", {"A": {"type": "x", "parse": []}}),
+    ("import:int", {"A": {"type": "x", "import": 1}}), ("missing-then-bad", {"A": {"parse": "p"}, "B": 1}), ("bad-then-missing", {"B": 1, "A": {"parse": "p"}}),
+    ("parse+serialize", {"A": {"type": "x", "parse": 1, "serialize": ["."]}}),
+]
+HEADERS_VALUES: List[Tuple[str, Any]] = [
+    ("value:int", {"A": 1}), ("value:list", {"A": ["$C17_TOKEN"]}), ("value:bool-after-str", {"A": "v", "B": True}),
+    ("missing-env-then-int", {"A": "$C17_NOPE", "B": 1}), ("int-then-missing-env", {"B": 1, "A": "$C17_NOPE"}), ("value:table", {"A": {"x": "y"}}),
+]
+NAME_OPTS = {"client": ("target_package_name", "client_name", "client_file_name", "enums_module_name", "input_types_module_name",
+                        "fragments_module_name"),
+             "schema": ("schema_variable_name", "type_map_variable_name")}
+STRICT_PATH_OPTS = {"client": ("schema_path", "queries_path", "target_package_path"), "schema": ("schema_path", "target_file_path")}
+MODES = ("none", "stable", "timestamp")
+ILL = "illTypedOptionInternal"
+
+
+def kind_ok(key: str, v: Any) -> bool:
+    """python twin of `kindOk` in Properties/C17.lean: the kind each option is documented to take"""
+    strs = lambda xs: all(isinstance(x, str) for x in xs)  # noqa: E731
+    if key == "remote_schema_headers":
+        return isinstance(v, dict) and strs(v.values())
+    if key in ("files_to_include", "plugins"):
+        return isinstance(v, list) and strs(v)
+    if key == "scalars":
+        return isinstance(v, dict) and all(isinstance(d, dict) and strs(d.values()) for d in v.values())
+    if key == "include_comments":
+        return isinstance(v, (str, bool))
+    if key in ("async_client", "opentelemetry_client", "convert_to_snake_case", "include_all_inputs", "include_all_enums",
+               "remote_schema_verify_ssl", "enable_custom_operations"):
+        return isinstance(v, bool)
+    if key in ("schema_path", "remote_schema_url", "queries_path", "target_package_name", "target_package_path", "client_name", "client_file_name",
+               "base_client_name", "base_client_file_path", "enums_module_name", "input_types_module_name", "fragments_module_name",
+               "target_file_path", "schema_variable_name", "type_map_variable_name"):
+        return isinstance(v, str)
+    return True
+
+
+def ill_typed_config(cfg: Any) -> bool:
+    """some option of the section (or the section / the tool table itself) has a value of another kind than documented"""
+    if not isinstance(cfg, dict):
+        return True
+    secs = []
+    t = cfg.get("tool")
+    if t is not None and not isinstance(t, dict):
+        return True
+    for sec in ((t or {}).get("ariadne-codegen"), cfg.get("ariadne-codegen")):
+        if sec is not None:
+            if not isinstance(sec, dict):
+                return True
+            secs.append(sec)
+    return any(not kind_ok(k, v) for sec in secs for k, v in sec.items())
+
+
+UNCONSTRAINED = ("async_client", "opentelemetry_client", "convert_to_snake_case", "include_all_inputs", "include_all_enums", "remote_schema_verify_ssl",
+                 "enable_custom_operations", "plugins", "remote_schema_url")
+
+
+def only_unconstrained_ill_typed(cfg: Any) -> bool:
+    """every value of another kind than documented sits at an option the property names no constraint for (accepting
+    such a configuration is no failure of C17)"""
+    if not isinstance(cfg, dict) or (cfg.get("tool") is not None and not isinstance(cfg.get("tool"), dict)):
+        return False
+    secs = [x for x in ((cfg.get("tool") or {}).get("ariadne-codegen"), cfg.get("ariadne-codegen")) if x is not None]
+    return all(isinstance(sec, dict) and all(kind_ok(k, v) or k in UNCONSTRAINED for k, v in sec.items()) for sec in secs)
+
+
+def kind_expect(kind: str, opt: str, v: Any) -> Optional[Dict[str, Any]]:
+    """what the PROPERTY says about a valid base configuration with `opt = v` (None: the property names no constraint that
+    decides this case; it is then compared with the model only)"""
+    import keyword
+
+    is_str = isinstance(v, str)
+    if opt == "include_comments" and kind == "client":
+        if isinstance(v, bool) or (is_str and v in MODES):
+            return {"accept": True}
+        return {"cls": "InvalidConfiguration", "mention": str(v), "trigger": None}      # an unknown comment mode, whatever its kind
+    if opt in NAME_OPTS[kind]:
+        if not is_str:
+            return {"cls": "InvalidConfiguration", "mention": None, "trigger": ILL}     # not usable as an identifier
+        if v.isidentifier() and not keyword.iskeyword(v):
+            return {"accept": True}
+        return {"cls": "InvalidConfiguration", "mention": v, "trigger": None}
+    if opt == "remote_schema_headers":
+        if isinstance(v, dict) and all(isinstance(x, str) and not x.startswith("$") for x in v.values()):
+            return {"accept": True}
+        if not (isinstance(v, dict) and all(isinstance(x, str) for x in v.values())):
+            return {"cls": "InvalidConfiguration", "mention": None, "trigger": ILL}
+        return None
+    if opt == "scalars" and kind == "client":
+        if isinstance(v, dict) and all(isinstance(d, dict) and isinstance(d.get("type"), str) and all(isinstance(x, str) for x in d.values())
+                                       for d in v.values()):
+            return {"accept": True}
+        if not isinstance(v, dict) or any(not isinstance(d, dict) for d in v.values()):
+            return {"cls": None, "mention": None, "trigger": ILL}                       # a scalar that has no `type` at all
+        return None
+    if opt in STRICT_PATH_OPTS[kind] and not is_str and v:
+        return {"cls": None, "mention": None, "trigger": None}                          # not a path: any CodeGenException will do
+    return None
+
+
+def kinds_cases(kind: str, bases: List[Tuple[str, Dict[str, Any]]]) -> List[Dict[str, Any]]:
+    try:
+        import dataclasses
+
+        from ariadne_codegen import settings as S
+
+        opts = [f.name for f in dataclasses.fields(S.ClientSettings if kind == "client" else S.GraphQLSchemaSettings)]
+    except (ImportError, AttributeError, TypeError):
+        opts = []
+    out: List[Dict[str, Any]] = []
+    for blabel, base in bases:
+        for opt in opts:
+            pool = list(KIND_VALUES)
+            if opt == "scalars":
+                pool += SCALARS_VALUES
+            if opt == "remote_schema_headers":
+                pool += HEADERS_VALUES
+            for vlabel, v in pool:
+                sec = copy.deepcopy(base)
+                sec[opt] = copy.deepcopy(v)
+                out.append({"kind": kind, "cfg": tool(sec), "label": f"{kind}/{blabel}/kind:{opt}={vlabel}", "expect": kind_expect(kind, opt, v)})
+    return out
+
+
+def path_kind_cases(W: Dict[str, str]) -> List[Dict[str, Any]]:
+    """every path option x {regular file, directory, missing, empty string} x every combination of the three flags that
+    change which checks run (enable_custom_operations, async_client, opentelemetry_client); expectations from the property:
+    a path option must name something that exists and has the right type WHATEVER the flags say"""
+    out: List[Dict[str, Any]] = []
+    kinds = {"file": W["inc1"], "dir": W["out"], "missing": W["missing"], "empty": ""}
+    inv = lambda mention: {"cls": "InvalidConfiguration", "mention": mention, "trigger": None}  # noqa: E731
+    for custom in (False, True):
+        for is_async in (False, True):
+            for otel in (False, True):
+                base = {"schema_path": W["schema_file"], "queries_path": W["queries_file"], "target_package_path": W["out"],
+                        "enable_custom_operations": custom, "async_client": is_async, "opentelemetry_client": otel}
+                flags = f"custom={int(custom)},async={int(is_async)},otel={int(otel)}"
+                for opt in ("schema_path", "queries_path", "target_package_path", "base_client_file_path", "files_to_include"):
+                    for pk, pv in kinds.items():
+                        sec = copy.deepcopy(base)
+                        exp: Optional[Dict[str, Any]]
+                        if opt == "schema_path":
+                            sec[opt] = pv
+                            exp = {"accept": True} if pk in ("file", "dir") else inv(pv if pk == "missing" else "schema_path")
+                        elif opt == "queries_path":
+                            sec[opt] = pv
+                            if pk in ("file", "dir"):
+                                exp = {"accept": True}
+                            elif pk == "missing":
+                                exp = inv(pv)
+                            else:
+                                exp = {"accept": True} if custom else {"cls": "MissingConfiguration", "mention": None, "trigger": None}
+                        elif opt == "target_package_path":
+                            sec[opt] = pv
+                            exp = {"accept": True} if pk in ("dir", "empty") else inv(pv)
+                        elif opt == "base_client_file_path":
+                            sec["base_client_name"] = "MyBaseClient"
+                            sec[opt] = W["custom_base"] if pk == "file" else pv
+                            exp = {"accept": True} if pk == "file" else inv(pv)
+                        else:
+                            sec[opt] = [W["inc2"], pv]
+                            exp = {"accept": True} if pk == "file" else inv(pv)
+                        out.append({"kind": "client", "cfg": tool(sec), "label": f"client/path-kind:{opt}={pk}/{flags}", "expect": exp})
+    for opt, pk, pv, ok in (("schema_path", "file", W["schema_file"], True), ("schema_path", "dir", W["schema_dir"], True),
+                            ("schema_path", "missing", W["missing"], False)):
+        out.append({"kind": "schema", "cfg": tool({"schema_path": pv}), "label": f"schema/path-kind:{opt}={pk}",
+                    "expect": {"accept": True} if ok else inv(pv)})
+    return out
+
+
+def section_shape_cases(kind: str, base: Dict[str, Any]) -> List[Dict[str, Any]]:
+    """`tool` / the section itself holding a value of every kind (get_section is `in` + item access on whatever is there)"""
+    out = []
+    for vlabel, v in KIND_VALUES:
+        if isinstance(v, dict) and v:
+            continue
+        out.append({"kind": kind, "cfg": {"tool": copy.deepcopy(v)}, "label": f"{kind}/shape:tool={vlabel}", "expect": None})
+        out.append({"kind": kind, "cfg": {"tool": copy.deepcopy(v), "ariadne-codegen": copy.deepcopy(base)}, "label": f"{kind}/shape:tool={vlabel}+deprecated",
+                    "expect": None})
+        out.append({"kind": kind, "cfg": {"tool": {"ariadne-codegen": copy.deepcopy(v)}}, "label": f"{kind}/shape:section={vlabel}", "expect": None})
+        out.append({"kind": kind, "cfg": {"ariadne-codegen": copy.deepcopy(v)}, "label": f"{kind}/shape:deprecated-section={vlabel}", "expect": None})
+    for vlabel, v in (("str:contains", "see ariadne-codegen docs"), ("str:exact", "ariadne-codegen"), ("list:contains", ["x", "ariadne-codegen"]),
+                      ("list:other", ["ariadne_codegen"])):
+        out.append({"kind": kind, "cfg": {"tool": v, "ariadne-codegen": copy.deepcopy(base)}, "label": f"{kind}/shape:tool={vlabel}", "expect": None})
+    return out
+
+
 def settings_cases(ctx: Ctx, W: Dict[str, str]) -> List[Dict[str, Any]]:
     """every case: {kind, cfg, label, expect: None | {"accept": True} | {"cls", "mention", "trigger"}}"""
-    cases: List[Dict[str, Any]] = []
+    cases: List[Dict[str, Any]] = path_kind_cases(W)
     for kind, bases, viols in (("client", client_bases(W), client_violations()), ("schema", schema_bases(W), schema_violations())):
         for blabel, base in bases:
             for vlabel, fn in harmless_variations(kind):
@@ -468,6 +725,9 @@ def settings_cases(ctx: Ctx, W: Dict[str, str]) -> List[Dict[str, Any]]:
                 mention = mut(sec, W)
                 cases.append({"kind": kind, "cfg": tool(sec), "label": f"{kind}/{blabel}/{vlabel}",
                               "expect": {"cls": cls, "mention": mention, "trigger": trig}})
+        # every TOML kind at every option of every valid base; the shapes of `tool` and of the section
+        cases += kinds_cases(kind, bases)
+        cases += section_shape_cases(kind, bases[0][1])
         # no section at all / empty configuration
         cases.append({"kind": kind, "cfg": {}, "label": f"{kind}/no-section", "expect": {"cls": "MissingConfiguration", "mention": "ariadne-codegen", "trigger": None}})
         cases.append({"kind": kind, "cfg": {"tool": {"black": {}}}, "label": f"{kind}/tool-only", "expect": {"cls": "MissingConfiguration", "mention": "ariadne-codegen", "trigger": None}})
@@ -512,6 +772,8 @@ def settings_cases(ctx: Ctx, W: Dict[str, str]) -> List[Dict[str, Any]]:
                               for i in range(rng.randint(0, 3))}
         if rng.random() < 0.2:
             sec[rng.choice(["unknown", "schema-path", "x"])] = rng.choice([1, "s", [1], {"a": 1}])
+        for _k in range(rng.choice([0, 0, 1, 1, 2])):      # values of arbitrary kinds at arbitrary options
+            sec[rng.choice(ALL_OPTS)] = copy.deepcopy(rng.choice(KIND_VALUES + SCALARS_VALUES + HEADERS_VALUES)[1])
         kind = "client" if rng.random() < 0.75 else "schema"
         if kind == "schema":
             if rng.random() < 0.6:
@@ -537,8 +799,12 @@ def judge_settings(ctx: Ctx, st: Optional[LeanStatus], res: Result, root: Path, 
             continue
         impl = {"result": norm_settings_result(obs["result"], False), "deprecatedSection": obs["deprecatedSection"],
                 "deprecatedBoolComments": obs["deprecatedBoolComments"], "pure": obs["pure"]}
-        res.seen([case["kind"], shown["cfg"]], nontrivial=True)
+        res.seen([case["kind"], json.dumps(shown["cfg"], sort_keys=False, default=repr)], nontrivial=True)
         res.count("settings:" + case["kind"] + (":accepted" if "ok" in impl["result"] else ":" + impl["result"]["err"]["cls"]))
+        if "/kind:" in label:
+            res.count("settings:kind-at-option:" + label.split("=", 1)[1].split(":")[0])
+            if ill_typed_config(case["cfg"]):
+                res.count("settings:ill-typed-value:" + ("accepted" if "ok" in impl["result"] else impl["result"]["err"]["cls"]))
         if case["kind"] == "client" and in_old_f2_region(find_section(case["cfg"]).get("fragments_module_name", [])):
             res.count("settings:inside-old-C17-F2-region")
             emsg = obs["result"]["err"].get("msg", "") if "err" in obs["result"] else ""
@@ -554,7 +820,12 @@ def judge_settings(ctx: Ctx, st: Optional[LeanStatus], res: Result, root: Path, 
                 mm = {"result": norm_settings_result(mres, True), "deprecatedSection": m["deprecatedSection"],
                       "deprecatedBoolComments": m["deprecatedBoolComments"], "pure": m["pure"]}
                 if not common.same_json(_unroot(impl, W), _unroot(mm, W)):
-                    res.mismatches.append(Mismatch("settings", shown, _unroot(_diff_view(impl, mm)[0], W), _unroot(_diff_view(impl, mm)[1], W)))
+                    # inside the region of C17-F8 (the model says: a bare Python exception) an implementation that now rejects
+                    # with one of its own exception classes passes the oracle: "finding no longer reproduces", not a violation
+                    ir = impl["result"].get("err")
+                    in_f8 = "err" in mres and mres["err"]["typed"] is False and obs["pure"]
+                    inside = ILL if in_f8 and ((ir is not None and ir["typed"]) or (ir is None and only_unconstrained_ill_typed(case["cfg"]))) else None
+                    res.mismatches.append(Mismatch("settings", shown, _unroot(_diff_view(impl, mm)[0], W), _unroot(_diff_view(impl, mm)[1], W), trigger=inside))
         # the property itself, on the real function
         if not obs["pure"]:
             res.failures.append(Failure("settings-mutated-config", None, shown, "the configuration dict differs after the call"))
@@ -567,12 +838,16 @@ def judge_settings(ctx: Ctx, st: Optional[LeanStatus], res: Result, root: Path, 
                 res.failures.append(Failure("valid-config-rejected", None, shown, json.dumps(r["err"])[:300]))
             continue
         trig = exp.get("trigger")
+        if trig == ILL and not ill_typed_config(case["cfg"]):
+            trig = None
         if "ok" in r:
             res.failures.append(Failure("invalid-config-accepted", trig, shown, f"{label}: settings were accepted"))
         else:
             e = r["err"]
             if not e["typed"]:
                 res.failures.append(Failure("untyped-exception", trig, shown, f"{label}: {e['cls']}: {e['msg'][:200]}"))
+            elif exp["cls"] is None:
+                pass        # any ariadne-codegen exception will do
             elif e["cls"] != exp["cls"]:
                 res.failures.append(Failure("wrong-exception-class", trig, shown, f"{label}: {e['cls']} instead of {exp['cls']}"))
             elif exp["mention"] and exp["mention"] not in e["msg"]:
@@ -666,28 +941,108 @@ def put_source(root: Path, name: str, spec: Any) -> str:
     return str(d)
 
 
-def read_source(path_str: str) -> Tuple[List[List[Any]], Optional[str]]:
-    """independent re-statement of what load_graphql_files_from_path reads: [[path, parses?]], joined text"""
+def gql_parses(text: str) -> bool:
+    """graphql-core asked directly: does this text parse on its own?"""
     from graphql import GraphQLSyntaxError, parse
 
+    try:
+        parse(text)
+        return True
+    except GraphQLSyntaxError:
+        return False
+
+
+def _content(f: Path) -> Dict[str, Any]:
+    try:
+        with open(f, encoding="utf-8") as fh:
+            return {"text": fh.read()}
+    except (OSError, UnicodeDecodeError) as e:
+        return {"unreadable": type(e).__name__}
+
+
+def _tree(d: Path) -> List[Dict[str, Any]]:
+    """the directory as data (every entry, whatever its name; order as the OS lists it: the MODEL sorts)"""
+    out = []
+    for c in d.iterdir():
+        out.append({"d": [c.name, _tree(c)]} if c.is_dir() else {"f": [c.name, _content(c)]})
+    return out
+
+
+def source_json(path_str: str) -> Tuple[Dict[str, Any], List[List[Any]], Optional[str]]:
+    """What the model is told about a schema_path / queries_path: the file or directory TREE as it is on disk, and
+    graphql-core's verdict on every text of the case (each file with a graphql suffix, and their concatenation in the order
+    of an independent re-statement of the sorted walk).  Returns (wire source, [[path, parses?]] in that order, joined text
+    when every file parses and the concatenation parses too)."""
     p = Path(path_str)
     if p.is_dir():
+        root: Dict[str, Any] = {"dir": [path_str, _tree(p)]}
         files = sorted(f for f in p.glob("**/*") if f.suffix in EXTS)
-    elif p.is_file():
-        files = [p.resolve()]
     else:
-        return [], None
-    out, texts = [], []
-    for f in files:
-        t = f.read_text(encoding="utf-8")
+        root = {"file": [str(p.resolve()), _content(p)]}
+        files = [p.resolve()]
+    texts: List[Optional[str]] = [_content(f).get("text") for f in files]
+    table: Dict[str, bool] = {}
+    for t in texts:
+        if t is not None and t not in table:
+            table[t] = gql_parses(t)
+    listing = [[str(f), (t is not None and table[t])] for f, t in zip(files, texts)]
+    joined = None
+    if all(t is not None for t in texts):
+        joined_text = "\n".join(t for t in texts if t is not None) if p.is_dir() else (texts[0] or "")
+        if joined_text not in table:
+            table[joined_text] = gql_parses(joined_text)
+        if all(ok for _, ok in listing) and table[joined_text]:
+            joined = joined_text
+    return {"root": root, "parses": [[t, ok] for t, ok in table.items()]}, listing, joined
+
+
+def read_source(path_str: str) -> Tuple[List[List[Any]], Optional[str]]:
+    _, listing, joined = source_json(path_str)
+    return listing, joined
+
+
+def plugin_lookup_fact(s: Any) -> List[Any]:
+    """the import system asked directly (an independent re-statement of what plugins/explorer.py asks it)"""
+    import importlib
+    import importlib.util
+    import inspect
+
+    if not isinstance(s, str):
+        return [str(s), "raises", "AttributeError"]
+    try:
         try:
-            parse(t)
-            ok = True
-        except GraphQLSyntaxError:
-            ok = False
-        out.append([str(f), ok])
-        texts.append(t)
-    return out, ("\n".join(texts) if all(o for _, o in out) and out else None)
+            is_mod = importlib.util.find_spec(s) is not None
+        except ModuleNotFoundError:
+            is_mod = False
+        if is_mod:
+            importlib.import_module(s)
+            return [s, "module", None]
+        i = s.rfind(".")
+        if i < 0:
+            return [s, "classOk", None]      # never consulted: the missing dot is reported first
+        mod_s, cls_s = s[:i], s[i + 1:]
+        try:
+            mod = importlib.import_module(mod_s)
+        except ModuleNotFoundError:
+            return [s, "noModule", None]
+        try:
+            obj = getattr(mod, cls_s)
+        except AttributeError:
+            return [s, "noAttribute", None]
+        from ariadne_codegen.plugins.base import Plugin
+
+        ok = inspect.isclass(obj) and obj is not Plugin and issubclass(obj, Plugin)
+        return [s, "classOk" if ok else "notPlugin", None]
+    except Exception as e:  # noqa: BLE001 - e.g. ImportError for a relative name, ValueError for an empty one
+        return [s, "raises", type(e).__name__]
+
+
+def plugin_lookup_table(plugins: Any) -> List[List[Any]]:
+    try:
+        items = list(plugins) if isinstance(plugins, (list, str, dict)) else []
+    except TypeError:
+        items = []
+    return [plugin_lookup_fact(x) for x in dict.fromkeys(x for x in items if isinstance(x, str))]
 
 
 def schema_facts(joined: Optional[str]) -> Tuple[Dict[str, Any], Any]:
@@ -838,17 +1193,22 @@ def run_plan(root: Path, plan: Dict[str, Any]) -> Dict[str, Any]:
         sys.path.insert(0, str(root))
 
     # ---- oracle facts (graphql-core asked directly, never through ariadne-codegen) ----
-    s_files, s_joined = read_source(sec["schema_path"]) if isinstance(sec.get("schema_path"), str) and sec.get("schema_path") else ([], None)
+    EMPTY_SRC: Dict[str, Any] = {"root": {"dir": ["", []]}, "parses": [["", gql_parses("")]]}
+    s_src, s_files, s_joined = (source_json(sec["schema_path"]) if isinstance(sec.get("schema_path"), str) and sec.get("schema_path")
+                                and Path(sec["schema_path"]).exists() else (EMPTY_SRC, [], None))
     sfacts, schema_obj = schema_facts(s_joined)
-    line: Dict[str, Any] = {"op": "client" if strategy == "client" else "graphqlSchema", "cfg": wire.enc(cfg),
-                            "schema": {"files": s_files, **sfacts}, "plugins": {"resolve": facts.get("plugin_resolve") or [],
-                                                                                 "replaces": facts.get("replaces")}}
+    line: Dict[str, Any] = {"op": "client" if strategy == "client" else "graphqlSchema", "cfg": tv_enc(cfg),
+                            "schema": {**s_src, **sfacts}, "plugins": {"lookup": plugin_lookup_table(sec.get("plugins", [])),
+                                                                        "replaces": facts.get("replaces")}}
     if facts.get("remote") is not None:
         line["schema"]["remote"] = facts["remote"]
+    q_files: List[List[Any]] = []
+    q_joined: Optional[str] = None
     if strategy == "client":
         q_path = sec.get("queries_path")
-        q_files, q_joined = read_source(q_path) if isinstance(q_path, str) and q_path else ([], None)
-        line["queries"] = {"files": q_files, **queries_facts(q_joined, schema_obj, facts)}
+        q_src, q_files, q_joined = (source_json(q_path) if isinstance(q_path, str) and q_path and Path(q_path).exists()
+                                    else (EMPTY_SRC, [], None))
+        line["queries"] = {**q_src, **queries_facts(q_joined, schema_obj, facts)}
         tp, tn = sec.get("target_package_path", Path.cwd().as_posix()), sec.get("target_package_name", "graphql_client")
         line["pkgDirExists"] = (Path(tp) / tn).exists() if isinstance(tp, str) and isinstance(tn, str) else False
         line["codeError"] = facts.get("code_error") or []
@@ -869,16 +1229,24 @@ def run_plan(root: Path, plan: Dict[str, Any]) -> Dict[str, Any]:
         if any(f["err"] for f in remaining):
             trig.append("fragmentGenErrorAfterWrites")
     if settings_ok:
-        so = sobs["result"]["ok"]
-        if (so["schema_path"] and not s_files) or (strategy == "client" and so["queries_path"] and not line["queries"]["files"]):
+        so = {k: (tv_dec(v) if k != "scalars" else v) for k, v in sobs["result"]["ok"].items()}
+        use_q = strategy == "client" and bool(so["queries_path"])
+        if (so["schema_path"] and not s_files) or (use_q and not q_files):
             trig.append("noGraphqlFiles")
+        broken = lambda listing, joined: bool(listing) and all(ok for _, ok in listing) and joined is None  # noqa: E731
+        if (so["schema_path"] and broken(s_files, s_joined)) or (use_q and broken(q_files, q_joined)):
+            trig.append("joinedNotParsable")
         if strategy == "client":
             try:
-                text = Path(so["base_client_file_path"]).read_text()
+                text = Path(str(so["base_client_file_path"])).read_text()
             except OSError:
                 text = ""
-            if not re.search(r"class " + re.escape(so["base_client_name"]) + r"(?![A-Za-z0-9_])", text):
+            if not re.search(r"class " + re.escape(str(so["base_client_name"])) + r"(?![A-Za-z0-9_])", text):
                 trig.append("baseClassSubstring")
+    else:
+        err = sobs.get("result", {}).get("err") or {}
+        if not err.get("typed", True) and err.get("cls") in ("AttributeError", "KeyError", "TypeError"):
+            trig.append(ILL)
 
     # ---- the real run ----
     before = snapshot(out_dir)
@@ -948,6 +1316,13 @@ PIPELINE_CFG_VIOLATIONS: List[Tuple[str, Dict[str, Any], str, Optional[str]]] = 
     ("base-class-absent", {"base_client_name": "Nope", "base_client_file_path": "<ROOT>/custom_base.py"}, "InvalidConfiguration", "Nope"),
     ("base-file-missing", {"base_client_name": "X", "base_client_file_path": "<ROOT>/nope.py"}, "InvalidConfiguration", "/nope.py"),
     ("file-to-include-missing", {"files_to_include": ["<ROOT>/nope.py"]}, "InvalidConfiguration", "/nope.py"),
+    ("file-to-include-is-dir", {"files_to_include": ["<ROOT>/inc1.py", "<ROOT>/out"]}, "InvalidConfiguration", "/out"),
+    ("queries-path-missing+custom-operations", {"queries_path": "<ROOT>/nope.graphql", "enable_custom_operations": True}, "InvalidConfiguration",
+     "/nope.graphql"),
+    ("queries-path-missing-dir+custom-operations+sync", {"queries_path": "<ROOT>/no/such/dir", "enable_custom_operations": True, "async_client": False},
+     "InvalidConfiguration", "/no/such/dir"),
+    ("package-path-is-file", {"target_package_path": "<ROOT>/inc1.py"}, "InvalidConfiguration", "/inc1.py"),
+    ("base-file-is-dir", {"base_client_name": "MyBaseClient", "base_client_file_path": "<ROOT>/out"}, "InvalidConfiguration", "/out"),
 ]
 
 PLUGIN_FAULTS: List[Tuple[str, List[str], List[Optional[str]]]] = [
@@ -1159,7 +1534,7 @@ def model_view(m: Dict[str, Any], strategy: str) -> Dict[str, Any]:
 def same_view(a: Dict[str, Any], b: Dict[str, Any]) -> bool:
     """messages are compared only where the model renders one (its own data), not for texts of third parties"""
     a, b = dict(a), dict(b)
-    if b.get("msg") in ("", None) or b.get("cls") == "PluginImportError":
+    if b.get("msg") in ("", None) or b.get("typed") is False:      # the text of a bare Python exception is CPython's
         a.pop("msg", None)
         b.pop("msg", None)
     return common.same_json(a, b)
@@ -1238,11 +1613,14 @@ def judge_plans(ctx: Ctx, st: Optional[LeanStatus], res: Result, plans: List[Dic
             res.count(f"{tag}:inside-old-C17-F2-region")
         if i in model:
             mv = unroot(model_view(model[i], strategy))
+            improved = (ILL in model[i].get("triggers", []) and obs["outcome"] == "error" and obs["typed"] and obs["phase"] == "settings"
+                        and not obs["changes"])      # C17-F8 region, now a typed refusal without side effects
             if not same_view(iv, mv):
-                inside = active[0] if active and (plan.get("facts") or {}).get("code_error") else None
+                inside = active[0] if active and (plan.get("facts") or {}).get("code_error") else (ILL if improved else None)
                 res.mismatches.append(Mismatch(tag, shown, iv, mv, trigger=inside))
             if sorted(model[i].get("triggers", [])) != sorted(active):
-                res.mismatches.append(Mismatch(tag + "-triggers", shown, sorted(active), sorted(model[i].get("triggers", []))))
+                res.mismatches.append(Mismatch(tag + "-triggers", shown, sorted(active), sorted(model[i].get("triggers", [])),
+                                               trigger=ILL if improved else None))
         exp = plan.get("expect") or {}
         if exp.get("invalid") == "schema" and r["line"]["schema"]["buildError"] is None and r["line"]["schema"]["trueErrors"] == 0:
             res.count(f"{tag}:labelled-invalid-schema-but-graphql-core-finds-it-valid (not judged)")
@@ -1254,6 +1632,412 @@ def judge_plans(ctx: Ctx, st: Optional[LeanStatus], res: Result, plans: List[Dic
         if len(res.samples) < 6 and plan["label"] in ("invalid-operation/FieldsOnCorrectTypeRule", "refusal/mixin-fragment/files", "valid/base"):
             res.sample({"input": shown, "impl": iv, "model": unroot(model_view(model[i], strategy)) if i in model else None})
     return verdicts
+
+
+# --------------------------------------------------------------------------------------------
+# schema.py at function level: file / directory tree -> one document
+# --------------------------------------------------------------------------------------------
+
+EXTRA_DOCS = {
+    "strings": '"""doc with { brace"""\ntype Query { a(x: String = "}{", y: [Int!] = [1, 2]): Int @deprecated(reason: "x # y") }\n# trailing comment',
+    "ops": 'query Q($a: Int = 1, $b: [ID!]) { u(id: "1") { ... on User { id } ...F @skip(if: true) } }\nfragment F on User { name }',
+    "sdl": "directive @d(x: Int) repeatable on FIELD | OBJECT\nextend type Query @d { z: Int }\nschema { query: Query }\nunion U = | A | B\nenum E { A B }",
+}
+
+
+def token_offsets(text: str) -> List[int]:
+    """start offsets of the tokens of a document (graphql-core's lexer asked directly)"""
+    from graphql import Lexer, Source, TokenKind
+
+    lexer = Lexer(Source(text))
+    out = []
+    tok = lexer.advance()
+    while tok.kind != TokenKind.EOF:
+        out.append(tok.start)
+        tok = lexer.advance()
+    return out
+
+
+def split_at(text: str, cuts: List[int], names: Tuple[str, ...] = ("a_1.graphql", "b_2.gql", "c_3.graphqls")) -> Dict[str, str]:
+    parts = [text[i:j] for i, j in zip([0] + cuts, cuts + [len(text)])]
+    return {n: t for n, t in zip(names, parts)}
+
+
+def source_cases(ctx: Ctx) -> List[Tuple[str, Any]]:
+    """(label, tree) — tree: str = a single file, dict = {relative path: text | bytes | None (= an empty directory)}"""
+    rng = ctx.sub_rng("sources")
+    cases: List[Tuple[str, Any]] = []
+    docs = {"schema": D.BASE_SCHEMA.strip(), "queries": D.BASE_QUERIES.strip(), **EXTRA_DOCS}
+    for dname, text in docs.items():
+        offs = token_offsets(text)[1:]
+        for o in offs:                                        # every token boundary, two files
+            cases.append((f"split2/{dname}@{o}", split_at(text, [o])))
+        for _ in range(ctx.budget(25, 400)):                  # pairs of boundaries, three files
+            if len(offs) >= 2:
+                a, b = sorted(rng.sample(offs, 2))
+                cases.append((f"split3/{dname}@{a},{b}", split_at(text, [a, b])))
+        cases.append((f"single/{dname}", text))
+    v = "type Query { a: Int }"
+    fixed: List[Tuple[str, Any]] = [
+        ("neighbour/empty-file", {"a.graphql": v, "b.graphql": ""}),
+        ("neighbour/comment-only", {"a.graphql": "# nothing but a comment\n", "b.graphql": v}),
+        ("neighbour/whitespace-only", {"a.graphql": v, "z.gql": " \n\t,,\n"}),
+        ("neighbour/bom-only", {"a.graphql": v, "b.graphqls": "﻿"}),
+        ("seed/unclosed+closing", {"a_users.graphql": "query GetA {\n  a\n", "b_rest.graphql": "}\n"}),
+        ("seed/three-way", {"a.graphql": "type Query {", "m.graphql": "a: Int", "z.graphql": "}"}),
+        ("only-invalid-last", {"a.graphql": v, "b.graphql": "type B { b: Int }", "c.graphql": "type C {"}),
+        ("single/empty", ""), ("single/comment", "# c\n"), ("single/invalid", "type Query {"),
+        ("order/components-not-strings", {"a/x.graphql": "type Query { a: Int }", "a.b/y.graphql": "type Y { y: Int }", "a-b/z.graphql": "type Z { z: Int }",
+                                          "a.graphql": "type A { a: Int }"}),
+        ("order/case", {"B.graphql": "type B { b: Int }", "a.graphql": "type Query { a: Int }", "_c.graphql": "type C { c: Int }"}),
+        ("order/invalid-first-in-subdir", {"b.graphql": v, "a/deep/x.gql": "type X {", "c.graphql": "type C {"}),
+        ("suffix/ignored", {"a.graphql": v, "b.GRAPHQL": "}", ".graphql": "}", "c.graphql.bak": "}", "d.txt": "}", "e.gqls": "}", "graphql": "}"}),
+        ("suffix/three-kinds", {"a.graphql": v, "b.graphqls": "type B { b: Int }", "c.gql": "type C { c: Int }", "sub/.hidden.gql": "type H { h: Int }"}),
+        ("suffix/invalid-gql", {"a.graphql": v, "b.gql": "type B {"}),
+        ("suffix/invalid-graphqls", {"a.graphql": v, "b.graphqls": "type B {"}),
+        ("suffix/invalid-graphql-after-gql", {"a.gql": v, "b.graphql": "}"}),
+        ("hidden/invalid-dot-file", {"a.graphql": v, ".hidden.gql": "type H {"}),
+        ("hidden/invalid-file-in-dot-directory", {"a.graphql": v, ".drafts/x.graphql": "}"}),
+        ("hidden/invalid-deep", {"a.graphql": v, "sub/.cache/deep/y.graphqls": "type Y {"}),
+        ("none/no-graphql-files", {"readme.txt": "x"}),
+        ("none/empty-dir", {}),
+        ("none/only-subdirs", {"a/b": None}),
+        ("joined/each-parses-concatenation-does-not", {"a.graphql": "type Query { a: Int }\ntype A", "b.graphql": "{ a }"}),
+        ("joined/each-parses-concatenation-does-not-2", {"a.graphql": "type Query { a: Int }\nscalar S", "b.graphql": "@d { a }"}),
+        ("unreadable/dir-with-suffix", {"a.graphql": v, "v1.graphql/inner.gql": "type I { i: Int }"}),
+        ("unreadable/not-utf8", {"a.graphql": v, "b.graphql": b"\xff\xfe type B"}),
+    ]
+    return cases + fixed
+
+
+def lay_tree(root: Path, tree: Any) -> Path:
+    if isinstance(tree, str):
+        p = root / "single.graphql"
+        p.write_text(tree, encoding="utf-8")
+        return p
+    d = root / "src"
+    d.mkdir()
+    for rel, content in tree.items():
+        f = d / rel
+        if content is None:
+            f.mkdir(parents=True, exist_ok=True)
+            continue
+        f.parent.mkdir(parents=True, exist_ok=True)
+        if isinstance(content, bytes):
+            f.write_bytes(content)
+        else:
+            f.write_text(content, encoding="utf-8")
+    return d
+
+
+def judge_sources(ctx: Ctx, st: Optional[LeanStatus], res: Result) -> None:
+    """`load_graphql_files_from_path` + `parse` (the real functions, in-process) against Model/SourceLoad.lean, and the
+    property at this level: a file that does not parse on its own must be refused with InvalidGraphqlSyntax naming such a file."""
+    try:
+        from graphql import GraphQLSyntaxError, parse
+
+        from ariadne_codegen import schema as ac_schema
+        from ariadne_codegen.exceptions import CodeGenException
+    except (ImportError, AttributeError) as e:
+        res.mismatches.append(Mismatch("source", {}, "observer: " + repr(e), None))
+        return
+    cases = source_cases(ctx)
+    base = Path(tempfile.mkdtemp(prefix=engine.SCRATCH_PREFIX, dir=engine.scratch_root())).resolve()
+    lines, obs_list, facts = [], [], []
+    try:
+        for i, (label, tree) in enumerate(cases):
+            root = base / f"c{i}"
+            root.mkdir()
+            p = lay_tree(root, tree)
+            src, listing, joined = source_json(str(p))
+            lines.append({"op": "loadSource", "source": src})
+            facts.append((listing, joined))
+            o: Dict[str, Any] = {}
+            try:
+                o["walk"] = [str(f) for f in sorted(ac_schema.walk_graphql_files(p))] if p.is_dir() else [str(p.resolve())]
+            except (AttributeError, TypeError) as e:
+                o["walk"] = "observer: " + repr(e)
+            try:
+                text = ac_schema.load_graphql_files_from_path(p)
+                try:
+                    parse(text)
+                    o["result"] = {"ok": text}
+                except GraphQLSyntaxError:
+                    o["result"] = {"err": {"cls": "GraphQLSyntaxError", "msg": None, "typed": False}}
+            except (AttributeError, TypeError) as e:
+                o["result"] = {"observer": repr(e)}
+            except BaseException as e:  # noqa: BLE001
+                typed = isinstance(e, CodeGenException)
+                o["result"] = {"err": {"cls": type(e).__name__, "msg": str(e) if typed else None, "typed": typed}}
+            obs_list.append(o)
+    finally:
+        shutil.rmtree(base, ignore_errors=True)
+    model = common.run_driver(ctx.prop, lines, chunk=500) if st is not None and st.driver_ok else None
+    findings = common.load_findings(ctx.prop)
+    for i, ((label, tree), o) in enumerate(zip(cases, obs_list)):
+        shown = {"label": "source/" + label, "tree": {k: (v if not isinstance(v, bytes) else repr(v)) for k, v in tree.items()} if isinstance(tree, dict) else tree}
+        unroot = lambda x, i=i: json.loads(json.dumps(x).replace(str(base / f"c{i}"), "<ROOT>"))  # noqa: E731
+        res.seen(["source", shown["tree"]])
+        r = o["result"]
+        if "observer" in r or isinstance(o["walk"], str):
+            res.mismatches.append(Mismatch("source", shown, "observer: " + str(r.get("observer") or o["walk"]), None))
+            continue
+        listing, joined = facts[i]
+        res.count("source:" + ("ok" if "ok" in r else r["err"]["cls"]))
+        if model is not None:
+            m = model[i]
+            mr = m["result"]
+            mv = {"ok": mr["ok"]} if "ok" in mr else {"err": {"cls": mr["err"]["cls"], "msg": mr["err"]["msg"]}}
+            iv = {"ok": r["ok"]} if "ok" in r else {"err": {"cls": r["err"]["cls"], "msg": r["err"]["msg"]}}
+            if not common.same_json(unroot(iv), unroot(mv)) or unroot(o["walk"]) != unroot(m["files"]):
+                res.mismatches.append(Mismatch("source", shown, unroot({"result": iv, "walk": o["walk"]}), unroot({"result": mv, "walk": m["files"]})))
+        # the property, from graphql-core's verdicts alone
+        unreadable = any(k for k in ([] if not isinstance(tree, dict) else tree) if isinstance(tree[k], bytes)) or label.startswith("unreadable/")
+        if unreadable:
+            continue
+        individually_bad = [f for f, ok in listing if not ok]
+        if individually_bad:
+            res.count("source:some-file-invalid-on-its-own")
+            if "ok" in r:
+                res.failures.append(Failure("invalid-input-accepted", None, shown,
+                                            f"source/{label}: {Path(individually_bad[0]).name} does not parse on its own but the directory was loaded"))
+            elif not r["err"]["typed"] or r["err"]["cls"] != "InvalidGraphqlSyntax":
+                res.failures.append(Failure("untyped-exception" if not r["err"]["typed"] else "wrong-exception-class", None, shown,
+                                            f"source/{label}: {r['err']['cls']} for a file that does not parse on its own"))
+            elif not any(f in (r["err"]["msg"] or "") for f in individually_bad):
+                res.failures.append(Failure("message-does-not-name-problem", None, shown, f"source/{label}: {unroot(r['err']['msg'])!r} names none of the invalid files"))
+        elif joined is None:
+            trig = "noGraphqlFiles" if not listing else "joinedNotParsable"
+            res.count("source:inside-trigger:" + trig)
+            if "ok" in r:
+                res.failures.append(Failure("invalid-input-accepted", pick_trigger([trig], "invalid-input-accepted", findings), shown, f"source/{label}"))
+            elif not r["err"]["typed"]:
+                res.failures.append(Failure("untyped-exception", pick_trigger([trig], "untyped-exception", findings), shown,
+                                            f"source/{label}: bare {r['err']['cls']}"))
+        else:
+            if "err" in r:
+                res.failures.append(Failure("valid-input-rejected", None, shown, f"source/{label}: {r['err']['cls']}: {unroot(r['err']['msg'])}"))
+            # (WHICH text is loaded from valid files - their order, a file left out - is not C17's subject: it is compared
+            #  with the model above, and judged by C19 / C10)
+    res.extra["source_cases"] = len(cases)
+
+
+def split_plans(ctx: Ctx) -> List[Dict[str, Any]]:
+    """a sample of the splits through the WHOLE command (typed refusal, nothing written); expectations from graphql-core alone"""
+    rng = ctx.sub_rng("split-plans")
+    plans: List[Dict[str, Any]] = []
+
+    def add(label: str, slot: str, tree: Dict[str, str], pre: str = "none") -> None:
+        names = sorted(n for n in tree if Path(n).suffix in EXTS)
+        bad = [n for n in names if not gql_parses(tree[n])]
+        exp = exp_invalid("syntax", "InvalidGraphqlSyntax", bad[0]) if bad else ACCEPT
+        plans.append(P(f"split/{slot}/{label}", exp, preexisting=pre, **{slot: tree}))
+
+    for slot, text in (("schema", D.BASE_SCHEMA.strip()), ("queries", D.BASE_QUERIES.strip())):
+        offs = token_offsets(text)[1:]
+        for o in rng.sample(offs, min(len(offs), ctx.budget(10, 60))):
+            add(f"@{o}", slot, split_at(text, [o]), rng.choice(["none", "files"]))
+        for _ in range(ctx.budget(4, 30)):
+            a, b = sorted(rng.sample(offs, 2))
+            add(f"@{a},{b}", slot, split_at(text, [a, b]))
+    add("seed-demo", "queries", {"a_users.graphql": "query GetA {\n  a\n", "b_rest.graphql": "}\n"}, "files")
+    add("empty-neighbour", "queries", {"a.graphql": D.BASE_QUERIES, "b.graphql": ""})
+    add("comment-only-neighbour", "schema", {"a.graphql": "# schema lives next door\n", "b.graphql": D.BASE_SCHEMA}, "files")
+    add("gs/seed-demo", "schema", {"a.graphql": "type Query {", "b.graphql": "a: Int }"})
+    plans[-1]["strategy"] = "graphqlschema"
+    plans.append(P("joined/each-parses-concatenation-does-not", exp_invalid("syntax"),
+                   schema={"a.graphql": D.BASE_SCHEMA + "\ntype Lonely", "b.graphql": "{ a }"}, queries="query GetA { a }"))
+    return plans
+
+
+# --------------------------------------------------------------------------------------------
+# config.get_config_file_path, plugins/explorer.py, Python's view of TOML values
+# --------------------------------------------------------------------------------------------
+
+
+def judge_config_file(ctx: Ctx, st: Optional[LeanStatus], res: Result) -> None:
+    try:
+        from ariadne_codegen import config as ac_config
+        from ariadne_codegen.exceptions import ConfigFileNotFound
+    except (ImportError, AttributeError) as e:
+        res.mismatches.append(Mismatch("config-file", {}, "observer: " + repr(e), None))
+        return
+    rng = ctx.sub_rng("config-file")
+    base = Path(tempfile.mkdtemp(prefix=engine.SCRATCH_PREFIX, dir=engine.scratch_root())).resolve()
+    cwd0 = os.getcwd()
+    lines, obs, shown_list = [], [], []
+    try:
+        deep = base / "p" / "q" / "r" / "s"
+        deep.mkdir(parents=True)
+        (base / "elsewhere").mkdir()
+        chain = [deep, deep.parent, deep.parent.parent, deep.parent.parent.parent, base]
+        for n in range(ctx.budget(60, 400)):
+            name = rng.choice([f"c17cfg_{n}.toml", f"sub_{n}/cfg.toml", f"c17_{n}.cfg"])
+            have = [d for d in chain if rng.random() < 0.35]
+            for d in have:
+                f = d / name
+                f.parent.mkdir(parents=True, exist_ok=True)
+                f.write_text("[tool.ariadne-codegen]\n")
+            cwd = rng.choice(chain[:4])
+            file_arg = name
+            if rng.random() < 0.15:                    # an absolute --config path
+                target = base / "elsewhere" / f"abs_{n}.toml"
+                if rng.random() < 0.6:
+                    target.write_text("x = 1\n")
+                file_arg = str(target)
+            os.chdir(cwd)
+            try:
+                r: Dict[str, Any] = {"path": str(ac_config.get_config_file_path(file_arg))}
+            except ConfigFileNotFound as e:
+                r = {"notFound": str(e)}
+            except (AttributeError, TypeError) as e:
+                r = {"observer": repr(e)}
+            comps = [c for c in str(cwd).split("/") if c]
+            ancestors = ["/" + "/".join(comps[:k]) for k in range(len(comps), -1, -1)]
+            existing = []
+            for a in ancestors:
+                cand = file_arg if file_arg.startswith("/") else (a.rstrip("/") + "/" + file_arg)
+                if os.path.exists(cand):
+                    existing.append(cand)
+            lines.append({"op": "configFile", "cwd": comps, "file": file_arg, "existing": existing})
+            obs.append(r)
+            shown_list.append({"cwd": str(cwd).replace(str(base), "<ROOT>"), "file": file_arg.replace(str(base), "<ROOT>"),
+                               "have": [str(d).replace(str(base), "<ROOT>") for d in have]})
+            # the property's clause for this function: a file that exists in an ancestor is found (the nearest one); otherwise the
+            # typed exception naming the file
+            nearest = existing[0] if existing else None
+            if "observer" not in r:
+                if nearest is None and "notFound" not in r:
+                    res.failures.append(Failure("config-file-invented", None, shown_list[-1], str(r)))
+                if nearest is not None and r.get("path") != nearest:
+                    res.failures.append(Failure("config-file-not-the-nearest", None, shown_list[-1], f"{r} instead of {nearest}".replace(str(base), "<ROOT>")))
+                if "notFound" in r and file_arg not in r["notFound"]:
+                    res.failures.append(Failure("message-does-not-name-problem", None, shown_list[-1], r["notFound"]))
+    finally:
+        os.chdir(cwd0)
+        shutil.rmtree(base, ignore_errors=True)
+    if st is not None and st.driver_ok:
+        out = common.run_driver(ctx.prop, lines)
+        for sh, r, m in zip(shown_list, obs, out):
+            res.seen(["config-file", sh])
+            res.count("config-file:" + ("found" if "path" in r else "not-found"))
+            if "observer" in r:
+                res.mismatches.append(Mismatch("config-file", sh, "observer: " + r["observer"], None))
+            elif not common.same_json(r, m):
+                res.mismatches.append(Mismatch("config-file", sh, json.loads(json.dumps(r).replace(str(base), "<ROOT>")),
+                                               json.loads(json.dumps(m).replace(str(base), "<ROOT>"))))
+
+
+PLUGIN_STRINGS = ["", ".", "a.", ".a", "nodots", "os", "os.path", "os.path.join", "os.path.nope", "os.nope.x", "nope_mod.Nope", "a b.c", "os..path",
+                  "ariadne_codegen.plugins.base.Plugin", SHORTER, "ariadne_codegen.contrib.shorter_results",
+                  "ariadne_codegen.contrib.shorter_results.NoSuchPlugin", "ariadne_codegen.contrib.extract_operations.ExtractOperationsPlugin",
+                  "json.JSONDecoder", "json.decoder", "ariadne_codegen.nope", "ariadne_codegen.contrib", "x.y.z.W"]
+
+
+def judge_plugins(ctx: Ctx, st: Optional[LeanStatus], res: Result) -> None:
+    """plugins/explorer.py for one plugin string at a time (runs in a forked child: it imports modules)"""
+    status, out = engine.forked(_plugins_child, PLUGIN_STRINGS, timeout=300)
+    if status != "ok":
+        raise common.Infra(f"plugins child: {status} {out}")
+    if st is None or not st.driver_ok:
+        return
+    lines = [{"op": "plugin", "s": s, "kind": fact[1], "cls": fact[2]} for s, fact, _ in out]
+    model = common.run_driver(ctx.prop, lines)
+    for (s, fact, impl), m in zip(out, model):
+        res.seen(["plugin", s])
+        res.count("plugin:" + (impl.get("cls") or "ok"))
+        if "observer" in impl:
+            res.mismatches.append(Mismatch("plugin", s, "observer: " + impl["observer"], None))
+            continue
+        mv = {"ok": True} if m.get("ok") else {"cls": m["cls"], "msg": m["msg"] if m["cls"] == "PluginImportError" else None}
+        if not common.same_json(impl, mv):
+            res.mismatches.append(Mismatch("plugin", {"plugin": s, "import_system": fact[1:]}, impl, mv))
+
+
+def _plugins_child(strings: List[str]) -> List[Tuple[str, List[Any], Dict[str, Any]]]:
+    out = []
+    try:
+        from ariadne_codegen.exceptions import PluginImportError
+        from ariadne_codegen.plugins import explorer
+    except (ImportError, AttributeError) as e:
+        return [(s, [s, "raises", "observer"], {"observer": repr(e)}) for s in strings]
+    for s in strings:
+        fact = plugin_lookup_fact(s)
+        try:
+            explorer.get_plugins_types([s])
+            impl: Dict[str, Any] = {"ok": True}
+        except PluginImportError as e:
+            impl = {"cls": "PluginImportError", "msg": str(e)}
+        except (AttributeError, TypeError) as e:
+            impl = {"observer": repr(e)} if fact[1] != "raises" else {"cls": type(e).__name__, "msg": None}
+        except BaseException as e:  # noqa: BLE001
+            impl = {"cls": type(e).__name__, "msg": None}
+        out.append((s, fact, impl))
+    return out
+
+
+def py_values(ctx: Ctx, st: Optional[LeanStatus], res: Result) -> None:
+    """Model/Toml.lean against CPython: truthiness, str/repr, the values as dict keys next to True/False, iteration,
+    `"ariadne-codegen" in v` — and against the `toml` package: the six kinds survive a dump/load round trip unchanged."""
+    if st is None or not st.driver_ok:
+        return
+    vals = [v for _, v in KIND_VALUES + SCALARS_VALUES + HEADERS_VALUES]
+    vals += [-0.0, 1e22, 1.5e-7, 123456789012345678901234567890, "it's", 'say "hi"', "a\\b", "tab\there", ["ariadne-codegen"], "xx ariadne-codegen yy",
+             {"ariadne-codegen": 1}, [True, False], [0.5, 1.5], {"k": [1, 2], "m": {"n": "o"}}, "ariadne-codege", [[1], [2]], "é"]
+    lines = [{"op": "pyval", "v": tv_enc(v)} for v in vals]
+    out = common.run_driver(ctx.prop, lines)
+    table = {True: True, False: False}
+    for v, m in zip(vals, out):
+        try:
+            key: Any = table[v]
+        except KeyError:
+            key = "KeyError"
+        except TypeError:
+            key = "TypeError"
+        try:
+            it: Any = [tv_enc(x) for x in v]
+        except TypeError:
+            it = None
+        try:
+            has: Any = "ariadne-codegen" in v
+        except TypeError:
+            has = None
+        impl = {"truthy": bool(v), "str": str(v), "repr": repr(v), "boolKey": key, "iter": it, "hasCodegen": has}
+        res.evaluations += 1
+        if not common.same_json(impl, m):
+            res.mismatches.append(Mismatch("spec-pyval", repr(v), impl, m))
+    res.count("spec:pyval", len(vals))
+    try:
+        import toml
+
+        from ariadne_codegen import config as ac_config
+    except (ImportError, AttributeError) as e:
+        res.mismatches.append(Mismatch("spec-toml", {}, "observer: " + repr(e), None))
+        return
+    base = Path(tempfile.mkdtemp(prefix=engine.SCRATCH_PREFIX, dir=engine.scratch_root())).resolve()
+    try:
+        n = 0
+        for label, v in KIND_VALUES + SCALARS_VALUES + HEADERS_VALUES:
+            if isinstance(v, float) and (v != v or repr(v) == "-0.0"):     # nan never equals itself; the toml package drops the sign of -0.0
+                continue
+            cfg = {"tool": {"ariadne-codegen": {"schema_path": "s.graphql", "probe": v}}}
+            f = base / f"t{n}.toml"
+            n += 1
+            try:
+                f.write_text(toml.dumps(cfg))
+                back = ac_config.get_config_dict(str(f))
+            except (AttributeError, TypeError) as e:
+                res.mismatches.append(Mismatch("spec-toml", label, "observer: " + repr(e), None))
+                continue
+            except Exception as e:  # noqa: BLE001 - the toml package refusing its own output: not a kind question
+                res.count("spec:toml-not-representable")
+                continue
+            res.evaluations += 1
+            if not _deep_same(_key_sorted(back), _key_sorted(cfg)):     # (a TOML file lists plain values before sub-tables)
+                res.mismatches.append(Mismatch("spec-toml", label, repr(back), repr(cfg)))
+        res.count("spec:toml-roundtrip", n)
+    finally:
+        shutil.rmtree(base, ignore_errors=True)
 
 
 # --------------------------------------------------------------------------------------------
@@ -1375,7 +2159,9 @@ def fingerprint_items() -> List[Tuple[str, Optional[str]]]:
         "GraphQLSchemaSettings.__post_init__", "assert_path_exists", "assert_path_is_valid_directory", "assert_path_is_valid_file",
         "assert_string_is_valid_schema_target_filename", "assert_string_is_valid_python_identifier", "resolve_headers",
         "get_header_value", "assert_class_is_defined_in_file")]
-    items += [(c, q) for q in ("get_client_settings", "get_section", "get_graphql_schema_settings")]
+    items += [(c, q) for q in ("get_client_settings", "get_section", "get_graphql_schema_settings", "get_config_file_path", "get_config_dict")]
+    items += [("ariadne_codegen/client_generators/scalars.py", q) for q in ("ScalarData.__post_init__", "ScalarData._get_object_name")]
+    items += [("ariadne_codegen/plugins/explorer.py", q) for q in ("is_module_str", "get_plugins_types_from_module", "is_plugin_type")]
     items += [(m, "client"), (m, "graphql_schema")]
     items += [(sc, q) for q in ("get_graphql_queries", "get_graphql_schema_from_path", "get_graphql_schema_from_url",
                                 "load_graphql_files_from_path", "walk_graphql_files", "read_graphql_file", "add_mixin_directive_to_schema")]
@@ -1408,9 +2194,14 @@ def run(ctx: Ctx, st: Optional[LeanStatus]) -> Result:
     replay_corpus(ctx, st, res)
     ctx.log(f"corpus replayed: {res.witness_status}")
     spec_checks(ctx, st, res)
+    py_values(ctx, st, res)
+    judge_sources(ctx, st, res)
+    judge_config_file(ctx, st, res)
+    judge_plugins(ctx, st, res)
+    ctx.log(f"spec / source / config-file / plugin correspondence done: {res.evaluations} evaluations, {len(res.mismatches)} mismatches")
     run_settings(ctx, st, res)
     ctx.log(f"settings correspondence done: {res.evaluations} evaluations, {len(res.mismatches)} mismatches")
-    plans = fixed_plans() + pair_plans(ctx, ctx.budget(150, 1200))
+    plans = fixed_plans() + split_plans(ctx) + pair_plans(ctx, ctx.budget(150, 1200))
     if ctx.thorough:
         extra = []
         for p in fixed_plans():
@@ -1456,7 +2247,9 @@ def search(ctx: Ctx) -> Result:
         judge_settings(ctx, None, res, root, W, settings_cases(ctx, W))
     finally:
         shutil.rmtree(root, ignore_errors=True)
-    judge_plans(ctx, None, res, fixed_plans() + pair_plans(ctx, 300), tag="search")
+    judge_sources(ctx, None, res)
+    judge_config_file(ctx, None, res)
+    judge_plans(ctx, None, res, fixed_plans() + split_plans(ctx) + pair_plans(ctx, 300), tag="search")
     return res
 
 
